@@ -9,7 +9,8 @@ type Profile struct {
 	WatchersMin, WatchersMax   int
 	ConsumersMin, ConsumersMax int
 	Registrar                  bool
-	RegistrarOdds              int // the registrar takes part in one of this many runs (default 2)
+	GhostTable                 bool // some WriteTxn requests name a table that is not registered and are rejected
+	RegistrarOdds              int  // the registrar takes part in one of this many runs (default 2)
 	Prober                     bool
 	Probes                     int
 	TxnsMin, TxnsMax           int
@@ -125,6 +126,7 @@ func profileFor(prop, tier string) *Profile {
 			p.BatteryQueries = 50
 		}
 	case "C05":
+		p.GhostTable = true
 		p.TablesMin, p.TablesMax = 1, 4
 		p.WritersMin, p.WritersMax = 2, 6
 		p.Registrar = true
@@ -178,6 +180,7 @@ func profileFor(prop, tier string) *Profile {
 		p.ReadProp = "C09"
 		p.CommitCheck = true
 	case "C10":
+		p.GhostTable = true
 		p.TablesMin, p.TablesMax = 2, 6
 		p.WritersMin, p.WritersMax = 2, 6
 		p.Registrar = true
